@@ -8,13 +8,15 @@ def main():
     ap.add_argument("property")
     ap.add_argument("--tier", default=os.environ.get("VERIF_TIER", "quick"))
     ap.add_argument("--only", default=None, help="restrict to contracts whose key contains this text (debugging)")
+    ap.add_argument("--write-baseline", action="store_true",
+                    help="(maintainer only) record the obligations proved on this tree in baseline_obligations.json")
     a = ap.parse_args()
     seed = int(os.environ.get("VERIF_SEED", "0") or 0)
     try:
         from checks import HOOKS
     except ImportError:
         HOOKS = {}
-    code = driver.check_property(a.property, a.tier, seed, bounded_hooks=HOOKS.get(a.property), only=a.only)
+    code = driver.check_property(a.property, a.tier, seed, bounded_hooks=HOOKS.get(a.property), only=a.only, write_baseline=a.write_baseline)
     sys.exit(code)
 
 
